@@ -68,7 +68,16 @@ def run(rep):
         facts["rs_i = c*m_i + cs_i"] = S.same(rs, vec_affine(c, msgv, cs, "N"))
         ccan = S.canon(cs)
         opts = ("E", S.canon(arg(3)))
-        facts["cs_i = Some(x) ? x : fresh"] = ccan[0] == "V" and ccan[1][0] == "ITE" and contains_term(ccan[1], opts) and contains_head(ccan[1], "rand")
+        # exactly: selector = "option i is Some", then-branch = its payload, else-branch = a fresh draw.  A narrower
+        # selector (Some(x) && x != 0, ...) silently replaces a caller-chosen scalar and breaks the linked patterns
+        sel = None
+        if ccan[0] == "V" and ccan[1][0] == "ITE":
+            try:
+                sel = S.alg.bdd.as_conjunction(ccan[1][1])
+            except Exception:
+                sel = None
+        facts["cs_i = Some(x) ? x : fresh"] = (sel is not None and len(sel) == 1 and sel[0][1] is True and sel[0][0] == ("eq", ("discr", opts), ("int", 1))
+                                               and ccan[1][2] == ("vfield", opts, 1, 0) and ccan[1][3][0] == "rand" and not contains_term(ccan[1][3], opts))
         # the blinding commitment scalar is whatever multiplies h in T; the response must be c*bf + that scalar
         bcs0 = cofactor(S, S.alg.poly(("sub", T, ip(gs, cs, "N"))), h)
         bcs = [bcs0] if bcs0 is not None else []
